@@ -244,6 +244,12 @@ neighbor 127.0.0.2 {{
 """
 
 
+VALIDATE_FAULTS = {
+    'undefined-process': 'api { processes [ nothere ]; }',
+    'processes-and-match': 'api { processes [ nothere ]; processes-match [ "no.*" ]; }',
+}
+
+
 def failed_case(old, new, fault, up, api):
     """old/new: route specs of neighbor 1 (neighbor 2 is fixed); fault: where the new file is broken
     'first-block'  : syntax error inside neighbor 1's block (its routes are never applied)
@@ -288,6 +294,9 @@ def failed_case(old, new, fault, up, api):
             cfg._configurations = ['']
         elif fault == 'comments-only':
             cfg._configurations = ['# everything was commented out\n# neighbor 127.0.0.1 { }\n']
+        elif fault in VALIDATE_FAULTS:
+            # every block is complete and valid; Configuration.validate() objects to the file as a whole
+            cfg._configurations = [config_text(new) + N2.format(nh='192.0.2.1').replace('\tstatic {', '\t' + VALIDATE_FAULTS[fault] + '\n\tstatic {', 1)]
         elif fault == 'parser-raises':
             cfg._configurations = [config_text(new) + N2.format(nh='192.0.2.1')]
             real = cfg.parse_section
@@ -351,10 +360,11 @@ def parse_time_region(failure):
     """the recorded defect: configured routes (and RIB families) are applied to the live, per-process RIB while the file
     is being parsed, when a neighbor block completes -- before the reload is known to succeed.  It manifests exactly
     when the fault lies in a LATER block than a complete, valid block of an already configured neighbor whose route set
-    differs from the running one.  A fault inside the changed block itself, a missing file or a parser exception
+    differs from the running one (a file Configuration.validate() objects to as a whole is such a fault: every block
+    has completed by then).  A fault inside the changed block itself, a missing file or a parser exception
     before any block completes are outside the region and stay enforced."""
     i = failure.get('input', {})
-    return i.get('fault') == 'later-block' and bool(i.get('earlier_block_changed')) and 'changed the routes a peer holds' in failure.get('what', '')
+    return i.get('fault') in ('later-block',) + tuple(VALIDATE_FAULTS) and bool(i.get('earlier_block_changed')) and 'changed the routes a peer holds' in failure.get('what', '')
 
 
 @bounded('C17', 'failed-reloads')
@@ -362,7 +372,7 @@ def failed_reloads(tier, seed):
     route_sets = [{'A': 10, 'B': None}, {'A': 20, 'B': None}, {'A': 10}, {'A': 10, 'B': None, 'C': 5}]
     fails, evals, distinct, samples = [], 0, set(), []
     for old_r, new_r in itertools.product(route_sets[:2] if tier == 'quick' else route_sets, route_sets):
-        for fault in ('first-block', 'later-block', 'missing-file', 'parser-raises', 'empty-file', 'comments-only'):
+        for fault in ('first-block', 'later-block', 'missing-file', 'parser-raises', 'empty-file', 'comments-only') + tuple(VALIDATE_FAULTS):
             for up in (True, False):
                 for api in ((False,) if tier == 'quick' else (False, True)):
                     old, new = dict(routes=old_r, hold=180), dict(routes=new_r, hold=180)
@@ -373,7 +383,7 @@ def failed_reloads(tier, seed):
                         fails.append(f)
                     if len(samples) < 3 and fault == 'later-block':
                         samples.append({'old': old, 'new': new, 'fault': fault, 'session_up_during_reload': up})
-    return {'evaluations': evals, 'distinct_nontrivial': len(distinct), 'bound': '2 neighbors; (2 quick / 4) x 4 route sets of neighbor 1 x 6 fault kinds (inside the changed block, in a later block, missing file, parser exception, empty file, comments only) x session up/down (x API route in thorough)', 'rule': 'one case = (old, new, fault position, session state, API route); distinct by value', 'samples': samples, 'failures': fails}
+    return {'evaluations': evals, 'distinct_nontrivial': len(distinct), 'bound': '2 neighbors; (2 quick / 4) x 4 route sets of neighbor 1 x 8 fault kinds (inside the changed block, in a later block, missing file, parser exception, empty file, comments only, an api process which is not defined, processes together with processes-match) x session up/down (x API route in thorough)', 'rule': 'one case = (old, new, fault position, session state, API route); distinct by value', 'samples': samples, 'failures': fails}
 
 
 @replayer('C17', 'failed-reloads')
